@@ -162,13 +162,20 @@ def floors(lines, verdicts):
     e_cmp = sum(1 for ln, v in zip(lines, verdicts) if ln.startswith("E ") and v == "ok")
     if e_cmp < 0.8 * kinds.get("E", 0):
         bad.append(f"typed decoders compared on only {e_cmp} of {kinds.get('E', 0)} E cases")
+    e_nullelem = count(lambda l: l.startswith("E ") and re.search(r"\| ok:[a-z]+\(.*null", l) is not None)
+    if e_nullelem < 150:
+        bad.append(f"typed decoders: only {e_nullelem} E cases decode a collection with a null element (< 150)")
+    q_set = count(lambda l: re.match(r"^Q \S+ \S+ 1 ", l) is not None)
+    q_list = count(lambda l: re.match(r"^Q \S+ \S+ 0 ", l) is not None)
+    if q_set < 200 or q_list < 200:
+        bad.append(f"Q cases bound to a set / list: {q_set} / {q_list} (< 200)")
     e_null = count(lambda l: l.startswith("E ") and " ffffffff |" in l)
     e_err = count(lambda l: l.startswith("E ") and "| err:" in l and "err:TypeCheck" not in l)
     if e_null < 100 or e_err < 300:
         bad.append(f"typed decoders: {e_null} null-cell cases (< 100) or {e_err} decode errors (< 300)")
     carriers = {ln.split(" ")[1] for ln in lines if ln.startswith("T ")}
-    if len(carriers) < 135:
-        bad.append(f"only {len(carriers)} typed carriers exercised (< 135)")
+    if len(carriers) < 140:
+        bad.append(f"only {len(carriers)} typed carriers exercised (< 140)")
     arities = {c.count(",") + 1 for c in carriers if c.startswith("(") and not c.endswith(",)")} | ({1} if any(c.endswith(",)") for c in carriers) else set())
     if not set(range(1, 17)) <= arities:
         bad.append(f"tuple arities exercised: {sorted(arities)} (want 1..16)")
@@ -200,8 +207,8 @@ def extra_coverage(lines, verdicts):
     cov = {"type_depth_histogram": {}, "carriers": 0, "ser_ok": 0, "ser_err": 0, "deser_err": 0,
            "outside_quantifier_accepted_not_read_back": sum(1 for v in verdicts if v and v.startswith("ok obs=")),
            "typed_model_compared_T": sum(1 for ln, v in zip(lines, verdicts) if ln.startswith("T ") and v and (v == "ok tm" or v.startswith("ok tm "))),
-           "typed_model_partial_T": sum(1 for ln, v in zip(lines, verdicts) if ln.startswith("T ") and v and v.startswith("ok tm-partial")),
-           "typed_decoder_E_unembeddable": sum(1 for ln, v in zip(lines, verdicts) if ln.startswith("E ") and v == "ok unembeddable"),
+           "typed_decoder_E_null_elements": sum(1 for ln in lines if ln.startswith("E ") and re.search(r"\| ok:[a-z]+\(.*null", ln)),
+           "Q_bound_to_set": sum(1 for ln in lines if re.match(r"^Q \S+ \S+ 1 ", ln)),
            "typed_decoder_E_compared": sum(1 for ln, v in zip(lines, verdicts) if ln.startswith("E ") and v == "ok"),
            "ipv4_mapped_inet_cases": sum(1 for ln in lines if "inet:" + MAPPED in ln),
            "known_class_hits": {}, "census": "in step" if not census() else "MISMATCH"}
@@ -242,10 +249,10 @@ SPEC = {
              "depth <= 4 (quick) / 6 (thorough): R = (column type, cell) through SerializedValues::add_value(&CqlValue) and "
              "Option<CqlValue>::deserialize (40% values of the type incl. boundary numerics, NaN payloads, non-normalised varints, "
              "short tuples/UDTs, nulls at every position, empty cells; 8% with type/arity/name mismatches); T = the same through one "
-             "of 138 typed Rust carriers, compared with the model of the dynamic path AND with the typed model (verdict ok tm; "
-             "ok tm-partial when the decoded carrier value has no dynamic counterpart and only the bytes were compared); V/Q = "
-             "Vec<MaybeUnset<Option<MaybeEmpty<T>>>> bound to vector / list; E = a typed carrier's own decoder on intact / corrupted / "
-             "random bytes, null cells and zero-length cells against typed_read; D = the dynamic decoder on truncated / corrupted / "
+             "of 143 typed Rust carriers, compared with the model of the dynamic path AND with the typed model (verdict ok tm); V/Q = "
+             "Vec<MaybeUnset<Option<MaybeEmpty<T>>>> bound to vector / list or set (Q: 4th field 0 = list, 1 = set); E = a typed carrier's own "
+             "decoder on intact / corrupted / random bytes, null cells, zero-length cells and (directed) collections with null ELEMENTS "
+             "against typed_read, carrier values printed on both sides with nulls inside collections (no result is accepted unseen); D = the dynamic decoder on truncated / corrupted / "
              "random bytes; N = vint codec.  Corpus cases (F13 witnesses, F2/F14 witnesses) are appended.  non-trivial = every case "
              "except R/T lines whose cell is a bare null/unset; distinct = distinct case lines"),
     "nontrivial": lambda ln: not re.match(r"^(R \S+|T \S+ \S+) (null|unset) \|", ln),
